@@ -1092,7 +1092,7 @@ def corr_subst(ck, n):
 def corr_resolve(ck, n):
     """resolve_tlib_cells(): model (resolveCells = substitute folded over the snapshot of the nodes) vs real code"""
     rng = ck.rng
-    raised = covered = covered_ds = covered_gen = covered_gen_only = 0
+    raised = covered = covered_ds = covered_gen = covered_gen_only = covered_ds_gen = 0
     import collections
     ds_tally = collections.Counter()
     for it in range(n):
@@ -1156,6 +1156,10 @@ def corr_resolve(ck, n):
                                           f'wfNoTrail(real result) = {rwfnt}, wfNoTrail(model result) = {hyp[6]}', inp={'request': req[:4000]})
                         if not ok:
                             covered_gen_only += 1; semtag = 'sem-hyp:covered-general'
+                            # resolve_datasheet_sem_general: the per-instance certificate under resolveGenOKB (audit finding 6)
+                            dstag = ds_hyp(libtag, tlib, hnames0, hdump0, insts0)
+                            if dstag == 'ds-hyp:covered': dstag = 'ds-hyp:covered-general'; covered_ds_gen += 1
+                            ds_tally[dstag] += 1
                     elif ok:
                         ck.broken_tie('resolve_sem_general contains the uses of resolve_sem', f'hypotheses {hyp}', inp={'request': req[:4000]})
                     else:
@@ -1165,6 +1169,7 @@ def corr_resolve(ck, n):
         ck.case(key=('resolve', req), nontrivial=real != 'raise' and len(kinds) > 0,
                 tag=['stream:corr-resolve', f'lib:{libtag}', f'instances:{min(len(kinds), 4)}', f"resolve-result:{'raise' if real == 'raise' else 'ok'}", semtag, dstag])
     ck.extra['corr_resolve_in_hypotheses_of_resolve_datasheet_sem'] = covered_ds
+    ck.extra['corr_resolve_in_hypotheses_of_resolve_datasheet_sem_general_only'] = covered_ds_gen
     ck.extra['corr_resolve_ds_hyp'] = dict(ds_tally)
     ck.extra['corr_resolve_raised'] = raised
     ck.extra['corr_resolve_in_hypotheses_of_resolve_sem'] = covered
@@ -1389,7 +1394,9 @@ def run(ck):
     ck.assumptions += [
         'copy_dump_eq / pickle_dump_eq / elim_* / substitute_* are theorems about the dump-level models; the models are tied to '
         'circuit.py by exact dump correspondence and NNet.wf / NNet.forkIns1 are evaluated on every real dump',
-        'elim_sem is stated for every consistent labelling (no uniqueness needed); that LogicSim computes a consistent labelling is C01',
+        'elim_sem maps every consistent labelling of the circuit to one of the result; elim_sem_converse gives the converse and uniqueness (the '
+        'labellings correspond one-to-one; no acyclicity needed); elim_wf exports wf / forkIns1 of the result; that LogicSim computes a '
+        'consistent labelling is C01',
         'substitute: ports, state elements (up to order; names and order in the regular same-class case), pin-by-pin wiring and '
         'the equations outside the cell are theorems about the model; substitute_sem / substitute_sem_removing / resolve_sem (the copied '
         'implementation has the relational meaning of the cell) are theorems about the model under decidable hypotheses (a designated '
